@@ -27,20 +27,37 @@ class EFLRSetsDict(defaultdict):
     def add_set(self, eflr_set: EFLRSet) -> None:
         """Register a new EFLRSet instance in the structure."""
 
+        self._check_set_ownership(eflr_set)
+
         if eflr_set.set_name in self[eflr_set.__class__]:
             raise RuntimeError(f"{eflr_set.__class__.__name__} with set name '{eflr_set.set_name}' "
                                f"already added to the file")
 
         self[eflr_set.__class__][eflr_set.set_name] = eflr_set
+        eflr_set.logical_file_sets = self
 
     def try_add_set(self, eflr_set: EFLRSet) -> bool:
         """Try to register a new EFLRSet instance in the structure. Return True on success, False otherwise."""
+
+        self._check_set_ownership(eflr_set)
 
         if eflr_set.set_name in self[eflr_set.__class__]:
             return False
         else:
             self[eflr_set.__class__][eflr_set.set_name] = eflr_set
+            eflr_set.logical_file_sets = self
             return True
+
+    def _check_set_ownership(self, eflr_set: EFLRSet) -> None:
+        """Check that the EFLRSet instance has not been registered in another structure of this kind.
+
+        A set (and so all its items) can be a part of one logical file only. RuntimeError is raised on an attempt to
+        register, in the structure kept by one logical file, a set which already belongs to another logical file.
+        """
+
+        if eflr_set.logical_file_sets is not None and eflr_set.logical_file_sets is not self:
+            raise RuntimeError(f"{eflr_set} already belongs to another logical file; objects of different logical "
+                               f"files cannot share a set - please use a different set name")
 
     def get_or_make_set(self, eflr_set_type: type[AnyEFLRSet], set_name: Optional[str] = None) -> AnyEFLRSet:
         """Given an EFLRSet subclass and name, either retrieve a relevant EFLRSet from the structure or create it.
